@@ -361,12 +361,16 @@ Advance == wake # {} /\ AdvanceTo(NextTimerAt)
 (* mailbox and the running step bodies are not part of it: the new runner arms the workflow timeout afresh, re-pings    *)
 (* waiters that lost their requirements (Rehydrate), moves in-progress work back to the queues and starts workers up    *)
 (* to each step's limit (Rewind).  The stream of the resumed run is a new stream (telemetry slots start empty).         *)
+(* The same holds for a run that cancel_run has ended: the cancel tick keeps `is_running`, so run(ctx=...) goes on from *)
+(* the cancelled state (a timed-out or finished run has is_running = FALSE: run(ctx=...) would start afresh).           *)
 PauseResume ==
-  /\ Live /\ Quiescent /\ bs.running /\ mon.nres < MaxResume
+  /\ (Live /\ Quiescent) \/ outcome = "cancelled"
+  /\ bs.running /\ mon.nres < MaxResume
   /\ LET st0 == R!RoundTrip(bs)
          rw == R!Rewind(st0, now)
          x0 == [buf |-> R!Rehydrate(st0), wseq |-> 1, pend |-> <<>>, pubs |-> <<>>,
-                mon |-> [mon EXCEPT !.nres = @ + 1, !.slots = {}], idlePending |-> FALSE, outcome |-> "none",
+                mon |-> [mon EXCEPT !.nres = @ + 1, !.slots = {}, !.nterm = 0, !.lastkind = "none", !.after = FALSE],
+                idlePending |-> FALSE, outcome |-> "none",
                 wake |-> IF TimeoutMs = -1 THEN {} ELSE {[at |-> now + TimeoutMs, seq |-> 0, tick |-> [k |-> "timeout"]]}]
          x == Exec(rw.cmds, 1, x0)
      IN /\ bs' = rw.st /\ buf' = x.buf /\ wake' = x.wake /\ wseq' = x.wseq /\ pend' = x.pend /\ pubs' = x.pubs /\ mon' = x.mon
